@@ -106,6 +106,8 @@ func CheckConsume(c ConsumeCase) *kit.Violation {
 	var read func() []byte // what the destination holds afterwards (nil func: not readable)
 	appendMode := false
 	var sink *writer
+	var heldOld []byte              // the slice value a pre-populated []byte destination held before the call: the caller may still hold it
+	var again func(io.Reader) error // consumes once more into the very same destination variable
 	switch c.Dest {
 	case dString:
 		s := ""
@@ -116,9 +118,11 @@ func CheckConsume(c ConsumeCase) *kit.Violation {
 	case dBytes:
 		var b []byte
 		if c.Prepop {
-			b = append([]byte(nil), old...)
+			b = append(make([]byte, 0, 2048), old...) // with room to spare, as a slice that came out of an earlier Consume has
+			heldOld = b
 		}
 		dest, read = &b, func() []byte { return b }
+		again = func(r io.Reader) error { return cons.Consume(r, &b) }
 	case dNamedStr:
 		s := myStr("")
 		if c.Prepop {
@@ -128,9 +132,11 @@ func CheckConsume(c ConsumeCase) *kit.Violation {
 	case dNamedBytes:
 		var b myBytes
 		if c.Prepop {
-			b = append(myBytes(nil), old...)
+			b = append(make(myBytes, 0, 2048), old...)
+			heldOld = b
 		}
 		dest, read = &b, func() []byte { return b }
+		again = func(r io.Reader) error { return cons.Consume(r, &b) }
 	case dBinU:
 		d := &binU{}
 		if c.Prepop {
@@ -225,6 +231,9 @@ func CheckConsume(c ConsumeCase) *kit.Violation {
 		return nil
 	}
 	sinkFails := c.Dest == dWriter && c.SinkErr >= 0 && c.SinkErr < len(want)
+	if heldOld != nil && !bytes.Equal(heldOld, old) {
+		return kit.Failf("ALIASED: %s consumer into %s: the destination held %q before the call; the caller's copy of that slice value now reads %q (err=%v)", c.Codec, c.Dest, old, clipb(heldOld), err)
+	}
 	if c.Stream.fails() || sinkFails {
 		if err == nil {
 			got := 0
@@ -282,6 +291,23 @@ func CheckConsume(c ConsumeCase) *kit.Violation {
 		}
 		if now := read(); !bytes.Equal(now, snapshot) {
 			return kit.Failf("ALIASED: %s consumer into %s stored %q; after two later Consume calls with other content the destination reads %q", c.Codec, c.Dest, clipb(snapshot), clipb(now))
+		}
+		if again != nil {
+			// the caller keeps the value it was given and consumes the next payload into the same variable (r6)
+			kept := read()
+			var err2 error
+			if v := kit.Guard("consume again into the same destination variable", func() { err2 = again(bytes.NewReader(other)) }); v != nil {
+				return v
+			}
+			if err2 != nil {
+				return kit.Failf("%s consumer into %s: consuming a second payload into the same variable failed: %v", c.Codec, c.Dest, err2)
+			}
+			if !bytes.Equal(kept, snapshot) {
+				return kit.Failf("ALIASED: %s consumer into %s stored %q; the caller kept that slice value and consumed the next payload into the same variable: the kept value now reads %q", c.Codec, c.Dest, clipb(snapshot), clipb(kept))
+			}
+			if now := read(); !bytes.Equal(now, other) {
+				return kit.Failf("%s consumer into %s: the second payload consumed into the same variable reads %q, the stream delivered %q", c.Codec, c.Dest, clipb(now), clipb(other))
+			}
 		}
 	}
 	return nil
